@@ -108,7 +108,7 @@ META = {
  "C09": dict(
    technique="lemmas over the contracts already proved on the real kernels: positional formula invariant under t -> k*t + c (non-linear reals), "
              "pair folds homogeneous in (d_mat, delta_empty) by induction, the candidate cut unchanged by that scaling, absolute categorical value "
-             "depends on label equality only, unitary disorder invariant under slot permutations for n = 2, 3",
+             "depends on label equality only, unitary disorder invariant under slot permutations for n = 2 .. 5",
    level="Each lemma is an obligation discharged on every run together with the kernel postconditions it is stated over (so a change to a "
          "kernel that breaks an invariance breaks the kernel's formula clause or the lemma). Bounded (labelled): end-to-end metamorphic runs.",
    note="Over the reals (S2); the optimum-level step relies on the solver model."),
